@@ -723,6 +723,10 @@ class FunctionDefinition(TypedExpression):
             base_indent=base_indent,
             line_break=line_break,
         )
+        if output_str.startswith("\n"):
+            # A body that opens on a new line (its first line was removed by an
+            # edit) leaves nothing behind the colon, not even the separator.
+            split = split.rstrip(" ")
         core = f"{args_str}{split}{output_str}"
         return self.add_trivia(core, indent=base_indent, inline=inline)
 
